@@ -162,11 +162,15 @@ XalanOutputStream::transcode(
 
         // Keep track of the destination size, and the target size, which is
         // the size of the destination that has not yet been filled with
-        // transcoded characters.  Double the buffer size, in case we're
-        // transcoding to a 16-bit encoding.
+        // transcoded characters.  Allow four bytes for every UTF-16 code
+        // unit, which is the most that the encodings in use need (GB18030,
+        // EUC, UTF-8).  The destination must not be too small for a whole
+        // character: a transcoder (ICU) that stops in the middle of one
+        // keeps the bytes that did not fit until its next call, which never
+        // comes for the last character of the stream.
         // $$$ ToDo: We need to know the size of an encoding, so we can
         // do the right thing with the destination size.
-        size_type   theDestinationSize = theBufferLength * 2;
+        size_type   theDestinationSize = theBufferLength * 4;
         size_type   theTargetSize = theDestinationSize;
 
         do
